@@ -159,6 +159,12 @@ func (p *Profile) genEvent(rng *rand.Rand, tr *Trace) M {
 					"@ROOT@", "../root", "@ROOT@/.", "../root/.", "./", "./.", "@ROOT@/../root"}
 				if len(wtFiles) > 0 {
 					dyn = append(dyn, "@ROOT@/"+wtFiles[rng.Intn(len(wtFiles))], "../root/"+wtFiles[rng.Intn(len(wtFiles))])
+					// other spellings of an existing file: ./f, d/./g, d//g
+					f := wtFiles[rng.Intn(len(wtFiles))]
+					dyn = append(dyn, "./"+f, "./"+f)
+					if i := strings.LastIndex(f, "/"); i > 0 {
+						dyn = append(dyn, f[:i]+"/./"+f[i+1:], f[:i]+"//"+f[i+1:])
+					}
 				}
 				if len(dirs) > 0 {
 					dyn = append(dyn, "@ROOT@/"+dirs[rng.Intn(len(dirs))], "../root/"+dirs[rng.Intn(len(dirs))], "./"+dirs[rng.Intn(len(dirs))]+"/")
